@@ -107,6 +107,13 @@ func cmdConform(args []string) int {
 				fmt.Printf("conform: %-70s not tested (%s)\n", r.Key, truncate(note, 90))
 				continue
 			}
+			if len(rr.Observed) == 0 {
+				// the harness could not run (e.g. the package's test binary does not start in
+				// this sandbox): nothing was observed, so nothing can disagree
+				skipped++
+				fmt.Printf("conform: %-70s not tested (the generated test did not build or run: %s)\n", r.Key, truncate(lastLine(rr.Output), 100))
+				continue
+			}
 			tested++
 			if rr.Reproduced {
 				conform++
@@ -130,4 +137,14 @@ func cmdConform(args []string) int {
 		return 2
 	}
 	return 0
+}
+
+func lastLine(s string) string {
+	ls := strings.Split(strings.TrimSpace(s), "\n")
+	for i := len(ls) - 1; i >= 0; i-- {
+		if t := strings.TrimSpace(ls[i]); t != "" && !strings.HasPrefix(t, "FAIL") && !strings.HasPrefix(t, "exit status") {
+			return t
+		}
+	}
+	return ""
 }
